@@ -1,6 +1,7 @@
 package main
 
 import (
+	"fmt"
 	"bytes"
 	"io"
 	"os"
@@ -76,6 +77,8 @@ func (f *scriptFile) Read(p []byte) (int, error) {
 			return 0, io.EOF
 		case s == -2:
 			return 0, scriptedErr{}
+		case s == -1000:
+			return 0, fmt.Errorf("scripted read error: %w", io.EOF)
 		default:
 			n := take(-3 - s)
 			f.data = nil
